@@ -474,7 +474,20 @@ impl Allocator for Arena {
     #[cfg(feature = "tracing")]
     tracing::debug!("discard {size} bytes");
 
-    self.header().discarded.fetch_add(size, Ordering::Release);
+    // saturate: the counter must never wrap around (it would decrease)
+    let discarded = &self.header().discarded;
+    let mut current = discarded.load(Ordering::Acquire);
+    loop {
+      match discarded.compare_exchange_weak(
+        current,
+        current.saturating_add(size),
+        Ordering::Release,
+        Ordering::Acquire,
+      ) {
+        Ok(_) => break,
+        Err(now) => current = now,
+      }
+    }
   }
 
   #[inline]
@@ -1601,7 +1614,7 @@ impl Arena {
         Ok(_) => {
           // incresase the discarded memory.
           self.increase_discarded(segment_node.data_size);
-          discarded += segment_node.data_size;
+          discarded = discarded.saturating_add(segment_node.data_size);
           continue;
         }
         Err(current) => {
